@@ -17,6 +17,9 @@ type c10In struct {
 	// pipe routes: requests served earlier on the SAME connection, each declaring this version ("-" = key absent);
 	// the verdict on the case's own request must not depend on them
 	Prior []string `json:"prior,omitempty"`
+	// earlier SetProtocolVersion calls on the same Server before the final one ("" = opt out): the gate must
+	// depend on the last declaration only
+	Reconf []string `json:"reconf,omitempty"`
 }
 
 var c10Routes = []string{"pipe_unary", "http_unary", "pipe_stream", "http_init", "pipe_describe", "http_describe"}
@@ -61,6 +64,20 @@ func c10Gen(r *rand.Rand, n int, tier string) []c10In {
 			out = append(out, c10In{Server: "2.10.3", Route: rt, HasClient: true, ClientVers: "3.1.0", Prior: prior})
 			out = append(out, c10In{Server: "2.10.3", Route: rt, HasClient: true, ClientVers: "2.10.03", Prior: prior})
 			out = append(out, c10In{Server: "2.10.3", Route: rt, HasClient: true, ClientVers: "2.10.9", Prior: prior})
+		}
+	}
+	// reconfiguration history: declare, then opt out (or re-declare): only the last declaration counts
+	for _, rt := range c10Routes {
+		for _, hist := range [][]string{{"1.4.0"}, {"1.4.0", ""}, {"", "3.0.0"}, {"2.10.3", "9.9.9"}} {
+			for _, cl := range []struct {
+				has bool
+				v   string
+			}{{false, ""}, {true, "1.4.0"}, {true, "2.0.0"}, {true, "01.4.0"}, {true, "2.10.7"}} {
+				out = append(out, c10In{Server: "", Route: rt, HasClient: cl.has, ClientVers: cl.v, Reconf: hist})
+				if len(out)%3 == 0 {
+					out = append(out, c10In{Server: "2.10.3", Route: rt, HasClient: cl.has, ClientVers: cl.v, Reconf: hist})
+				}
+			}
 		}
 	}
 	out = append(out, c10In{Server: "99999999999999999999.0.0", Route: "pipe_unary", HasClient: true, ClientVers: "99999999999999999998.0.1"})
@@ -147,7 +164,10 @@ func c10Run(in c10In) CaseOut {
 	sf := newSurface()
 	defer sf.Close()
 	s := NewScriptedServer(sf)
-	if in.Server != "" {
+	for _, v := range in.Reconf {
+		s.SetProtocolVersion(v)
+	}
+	if in.Server != "" || len(in.Reconf) > 0 {
 		s.SetProtocolVersion(in.Server)
 	}
 	sf.PushUnary(CallScript{Value: 1})
